@@ -67,6 +67,8 @@ struct Ctx {
     int tier = 0;                 // 0 quick, 1 thorough
     char type = 'd';
     std::set<std::string> known;  // ids of known findings that are still open (routing + suppression)
+    int fill_override = -1;       // >= 0: byte used to fill fresh library blocks instead of the property's choice
+    unsigned char fill(unsigned char dflt) const { return fill_override >= 0 ? (unsigned char)fill_override : dflt; }
     // per-case results
     bool failed = false;
     std::string oracle, msg;
